@@ -192,7 +192,7 @@ func (m *Module) Registry() error {
 			}
 		}
 		var b strings.Builder
-		fmt.Fprintf(&b, "package %s\n\nimport \"vmod/vdriver\"\n\nfunc init() {\n", pkgName)
+		fmt.Fprintf(&b, "package %s\n\nimport \"vmod/vdriver\"\n\nvar _ = vdriver.Hooks // the import is used even when nothing is registered\n\nfunc init() {\n", pkgName)
 		n := 0
 		for _, name := range order {
 			si := structs[name]
